@@ -125,6 +125,10 @@ structure Pair where
   setterOK : Bool := true
   setterPrefixOnly : Bool := false
   parserOK : Bool := true
+  /-- setter parameters whose C type is a signed integer (their code is the two's complement in the field) -/
+  signedInts : List Nat := []
+  /-- width of the C type of an integer parameter (0 for enumerations, flags, doubles, unions, text) -/
+  intBits : List Nat := []
   deriving Repr
 
 def Pair.W (P : Pair) (o : Nat) : Nat := P.widths.getD o 0
